@@ -51,7 +51,7 @@ def genBytes (seed : Nat) (len : Nat) : List UInt8 :=
     | n + 1 => let (s', z) := splitmix s; go n s' (UInt8.ofNat (z.toNat % 256) :: acc)
   go len (UInt64.ofNat seed) []
 
-def parsePayload (s : String) : Option (List UInt8) :=
+def parsePayloadPart (s : String) : Option (List UInt8) :=
   if s.startsWith "g" then
     match (s.drop 1).toString.splitOn "x" with
     | [a, b] => match a.toNat?, b.toNat? with
@@ -59,6 +59,10 @@ def parsePayload (s : String) : Option (List UInt8) :=
       | _, _ => none
     | _ => none
   else parseBytes s
+
+/-- hex bytes, `g<seed>x<len>`, or several such parts joined by `+` -/
+def parsePayload (s : String) : Option (List UInt8) :=
+  ((s.splitOn "+").mapM parsePayloadPart).map List.flatten
 
 /-- FNV-1a 64 over a string, for digests of long outputs -/
 def fnv (s : String) : UInt64 :=
